@@ -28,10 +28,12 @@ def draw_system(rng, seed: int, prop: str, *, families=("single",) * 6 + ("cross
     # "wide" runs (15 %): more features than n_modes + 10, i.e. outside the regime in which the randomised
     # solvers are exact whatever their seed - the only regime in which the *handling of seeds* (forwarding,
     # re-use across fits, ambient RNG) can show. Same backend on both sides, so no solver tolerance is needed.
-    wide = (not lazy) and rng.random() < 0.15 and name not in ("MultiCCA",)
+    wide = (not lazy) and rng.random() < 0.22 and name not in ("MultiCCA",)
     cfg["wide"] = wide
     if wide:
         lay["max_features"] = 30
+        lay["min_features"] = 16
+        lay["containers"] = ("da", "da", "ds")
     descs: dict = {}
     fits: dict = {}
     new: dict = {}
@@ -152,6 +154,17 @@ def draw_system(rng, seed: int, prop: str, *, families=("single",) * 6 + ("cross
     # spectrum (so that the rotation re-ranks modes: the sorting bookkeeping only shows then) and a history
     # that fits the rotator early
     cfg["focus"] = None
+    if wide:
+        # flat spectra: the randomised solvers are then visibly seed-dependent; a reduced PCA (randomised path)
+        for d in descs.values():
+            if d.get("kind") != "weights" and "ratio" in d:
+                d["ratio"] = rng.choice([0.9, 0.95])
+        if fam == "cross" or name == "POP":
+            params["use_pca"] = True
+            params["n_pca_modes"] = rng.choice([3, 4]) if name == "POP" else [rng.choice([3, 4]), rng.choice([3, 4])]
+            params["n_modes"] = min(int(params["n_modes"]), 3)
+            if cfg.get("rot_params"):
+                pass
     if spec.rotator and rng.random() < 0.5:
         cfg["focus"] = "rotator"
         for k, d in descs.items():
@@ -160,7 +173,7 @@ def draw_system(rng, seed: int, prop: str, *, families=("single",) * 6 + ("cross
         if fam == "single":
             small = min((descs["D0"], descs["D1"], descs["D2"]), key=models._rank)
             params["n_modes"] = max(int(params["n_modes"]), min(5, max(2, models._rank(small))))
-        elif fam == "cross":
+        elif fam == "cross" and not wide:   # (wide runs keep their reduced PCA: whitening ~n_samples features is ill-conditioned)
             rk = [min(models._rank(descs[k]) for k in ks) for ks in (("X0", "X1", "X2"), ("Y0", "Y1", "Y2"))]
             params["n_pca_modes"] = ["all", "all"]
             params["n_modes"] = max(2, min(5, rk[0], rk[1]))
@@ -171,3 +184,28 @@ def draw_system(rng, seed: int, prop: str, *, families=("single",) * 6 + ("cross
                                 transient=rng.choice([0, 0, 0.05]), stall=rng.choice([0, 0.1]),
                                 purity=1.0).to_json()
     return spec, cfg
+
+
+def simplifications(cfg: dict):
+    """Candidate simpler configurations for C13/C14 replays (kept only if they fail the same way)."""
+    def variant(mut):
+        c = copy.deepcopy(cfg)
+        mut(c)
+        return c
+    sc = cfg.get("sched") or {}
+    if sc.get("reexec") or sc.get("transient") or sc.get("stall") or sc.get("W", 1) != 1:
+        yield variant(lambda c: c["sched"].update(reexec=0.0, transient=0.0, stall=0.0, W=1))
+    for key in ("attrs", "coord_attrs", "ds_attrs", "extra_coord", "perm_seed", "nan_features", "nan_samples"):
+        if any(key in d and d[key] for d in cfg["descs"].values()):
+            yield variant(lambda c, key=key: [d.pop(key, None) for d in c["descs"].values()])
+    if any(f.get("w") or f.get("wY") for f in cfg.get("fits", {}).values()):
+        yield variant(lambda c: [f.update(w=None, wY=None) for f in c["fits"].values()])
+    for pk, simple in (("standardize", False), ("use_coslat", False), ("solver", "auto"), ("center", True),
+                       ("sample_name", None), ("feature_name", None)):
+        if pk in cfg["params"] and cfg["params"][pk] not in (simple, [simple, simple]):
+            if simple is None:
+                yield variant(lambda c, pk=pk: c["params"].pop(pk, None))
+            else:
+                yield variant(lambda c, pk=pk, simple=simple: c["params"].__setitem__(pk, simple))
+    if cfg.get("rot_params") and cfg["rot_params"].get("power", 1) != 1:
+        yield variant(lambda c: c["rot_params"].__setitem__("power", 1))
